@@ -252,6 +252,54 @@ def check(ctx):
                        "the single %-argument is not a caller-supplied value" if not risky else
                        "`%s`: a caller-supplied %s is the sole %%-argument -- a tuple key makes the formatting itself raise TypeError, so the "
                        "rejection surfaces as another exception type" % (ast.unparse(x)[:40], risky[0]), nontrivial=bool(risky))
+    # ---------------------------------------------------------------- C15.3a'' proxies report the *configuration's* path
+    # A field only knows its place in the schema; the configuration knows where it lives (item index, parent chain).  A
+    # reference path handed to ValidationError as an override has to start from the owning configuration's _ref_path.
+    from engine.specialize import Spec
+    for c in model.classes.values():
+        f = c.methods.get("_ref_path") if c.node is not None else None
+        if f is None or f.is_property or c.name in ("Config", "BaseField") or c.is_subclass_of(model.cls("BaseField")) or c.is_subclass_of(model.cls("Config")):
+            continue
+
+        def owner_expr(e):
+            """<self>.cfg._ref_path, or getattr(<self>.cfg, "_ref_path"[, default])"""
+            if isinstance(e, ast.Attribute) and e.attr == "_ref_path" and isinstance(e.value, ast.Attribute) and e.value.attr in ("cfg", "config", "_cfg"):
+                return True
+            if isinstance(e, ast.Call) and isinstance(e.func, ast.Name) and e.func.id == "getattr" and len(e.args) >= 2 \
+                    and isinstance(e.args[0], ast.Attribute) and e.args[0].attr in ("cfg", "config", "_cfg") \
+                    and isinstance(e.args[1], ast.Constant) and e.args[1].value == "_ref_path":
+                return True
+            return False
+
+        def is_owner(e, at, f=f):
+            if owner_expr(e):
+                return True
+            if isinstance(e, ast.Name):
+                srcs = value_sources(f, e, at)
+                return bool(srcs) and all(k == "expr" and isinstance(pl, ast.AST) and owner_expr(pl) for k, pl in srcs)
+            return False
+
+        def decide(e, node):
+            # the owning configuration has a non-empty path (it is not the root)
+            if is_owner(e, node):
+                return True
+            if isinstance(e, ast.Call) and isinstance(e.func, ast.Name) and e.func.id == "isinstance" and len(e.args) == 2 and is_owner(e.args[0], node):
+                return True
+            if isinstance(e, ast.Compare) and len(e.ops) == 1 and is_owner(e.left, node) and isinstance(e.comparators[0], ast.Constant):
+                cv = e.comparators[0].value
+                if cv is None or cv == "":
+                    return isinstance(e.ops[0], (ast.IsNot, ast.NotEq))
+            return None
+        sp = Spec(an, f, decide)
+        for r in sp.normal_returns():
+            if r.ast.value is None:
+                continue
+            exprs = [r.ast.value] + [pl for k, pl in sp.sources(r.ast.value, r) if k == "expr" and isinstance(pl, ast.AST)]
+            uses_owner = any(is_owner(x, r) for e in exprs for x in ast.walk(e) if isinstance(x, (ast.Attribute, ast.Call, ast.Name)))
+            ctx.ob("path.proxy-uses-owner-path", f, r.ast, uses_owner,
+                   "for a configuration that has a path of its own, the entry path starts from it" if uses_owner else
+                   "%s builds the path of an entry from the field's place in the schema only: for a configuration held in a list (or built "
+                   "from a config type) the item index / parent chain is missing from the reported path" % f.qualname, node=r)
     # ---------------------------------------------------------------- C15.3b item position
     # (i) the container link is tested for None-ness, not truthiness: a typed list is falsy while empty,
     #     i.e. exactly while its first item is being loaded
